@@ -40,6 +40,14 @@
 (*                     CloseConnection -> UnregisterConnection, so the store effect is one.    *)
 (*   LateCleanup(n,c)  the same code path, taken for a connection whose client has meanwhile  *)
 (*                     completed a newer handshake (old node notices late)                    *)
+(*   LkBegin(m,x) / LkEnd(m)   FindClientNode on node m as the two storage reads it is: read   *)
+(*                     the client index (LkBegin), later read the record of the connection it  *)
+(*                     named (LkEnd); handshakes elsewhere and cleanups may fall in between.   *)
+(*                     A lookup is READ-ONLY (invariant LookupPure).  WritingLookup = TRUE     *)
+(*                     models the design that drops a "dangling" index when the record is      *)
+(*                     gone: the index may by then belong to a newer connection - deviation    *)
+(*                     "lookupErased".  (Lookups = FALSE switches the two-step lookup off; the *)
+(*                     instantaneous Find of the invariants is always there.)                  *)
 (*   Tick              discrete clock; both keys lose one tick of remaining lifetime and      *)
 (*                     vanish at 0 (key TTL and the explicit ExpiresAt check coincide)        *)
 (*                                                                                            *)
@@ -55,7 +63,8 @@
 (* handshake): "shape" (registration stored in a shape lookups cannot read), "lateCleanup"    *)
 (* (an unregister erased an index naming another connection), "ttlLapse" (record or index of  *)
 (* a heart-beating connection ran out), "phase1Moves" (an unfinished handshake re-registered   *)
-(* an older connection over the location of the client's most recent successful handshake).   *)
+(* an older connection over the location of the client's most recent successful handshake),   *)
+(* "lookupErased" (a writing lookup dropped an index that had moved on to a newer connection).  *)
 (*   as-is     (fixes = {}):  FindLive is violated (run ConnState_asis.cfg to see the trace); *)
 (*                            FindLiveOrDev, FindClosed hold - every route to a violation     *)
 (*                            goes through a named deviation.                                 *)
@@ -68,6 +77,7 @@ CONSTANTS Nodes, NConns, Clients,  \* connections c1..cN are used in this order 
           Shapes,                  \* backend shapes explored: subset of {"ptr", "str", "map"}
           FixSets,                 \* sets of repairs explored: subsets of AllFixes
           Causes,                  \* close causes explored: subset of {"peer", "cmd", "sweep", "kick"} (one store effect)
+          Lookups, WritingLookup,  \* two-step lookups explored? / the writing-lookup design
           Emit, Only               \* Only = "dev": print a behaviour only when its last event records a deviation
 
 VARIABLES shape,    \* what the configured backend hands back for connRec (fixed per behaviour)
@@ -82,12 +92,15 @@ VARIABLES shape,    \* what the configured backend hands back for connRec (fixed
           alive,    \* ghost: connection -> heart-beaten in every tick since its handshake
           dev,      \* ghost: client -> set of deviation names since its latest handshake
           lost,     \* ghost: client -> an undeliverable handshake of it happened since its latest successful one
+          lk,       \* the lookup in flight (at most one): [p, m, x, conn] - index read, record not yet
+          lkDone,   \* ghost: client -> since its latest handshake a lookup completed whose index read was overtaken
+          lkWrote,  \* ghost: some lookup modified the store
           hist
-vars == <<shape, fixes, connRec, clientIdx, clock, cst, reg, last, hb, alive, dev, lost, hist>>
+vars == <<shape, fixes, connRec, clientIdx, clock, cst, reg, last, hb, alive, dev, lost, lk, lkDone, lkWrote, hist>>
 \* lifetimes are kept as REMAINING ticks, so the state graph without the clock is finite and the
 \* exhaustive check covers sessions of any length; the generator keeps the clock to bound sleeps
-view    == <<shape, fixes, connRec, clientIdx, cst, reg, last, hb, alive, dev, lost>>
-genview == <<shape, fixes, connRec, clientIdx, clock, cst, reg, last, hb, alive, dev, lost>>
+view    == <<shape, fixes, connRec, clientIdx, cst, reg, last, hb, alive, dev, lost, lk, lkDone, lkWrote>>
+genview == <<shape, fixes, connRec, clientIdx, clock, cst, reg, last, hb, alive, dev, lost, lk, lkDone, lkWrote>>
 
 AllConns == <<"c1", "c2", "c3", "c4">>
 ConnName(i) == AllConns[i]
@@ -95,6 +108,7 @@ ConnSet == {ConnName(i) : i \in 1..NConns}
 NoRec == [node |-> "-", client |-> "-", ttl |-> 0]     \* ttl = remaining lifetime in ticks, 0 = absent
 NoIdx == [conn |-> "-", ttl |-> 0]
 Fresh == [st |-> "new", node |-> "-", auth |-> "-"]
+NoLk  == [p |-> FALSE, m |-> "-", x |-> "-", conn |-> "-"]
 
 AllFixes == {"ptrShape", "condIdxDelete", "hbRefresh", "successOnly"}
 Init == /\ shape \in Shapes /\ fixes \in FixSets
@@ -108,6 +122,7 @@ Init == /\ shape \in Shapes /\ fixes \in FixSets
         /\ alive = [c \in ConnSet |-> FALSE]
         /\ dev = [x \in Clients |-> {}]
         /\ lost = [x \in Clients |-> FALSE]
+        /\ lk = NoLk /\ lkDone = [x \in Clients |-> FALSE] /\ lkWrote = FALSE
         /\ hist = <<>>
 
 \* generation filter (evaluated on the step being taken; definitions further down):
@@ -116,6 +131,10 @@ Init == /\ shape \in Shapes /\ fixes \in FixSets
 \*           heartbeat / close while that client is still connected
 \*   "close" a close by command / kick / stale sweep of the client's last connection while the
 \*           lookup still found the client
+\*   "lookup" a heartbeat of the client's current connection after a two-step lookup of the client
+\*           completed whose index read had been overtaken (handshake elsewhere / cleanup in between)
+\*   "reauth" a successful re-handshake on an already authenticated connection that is not (any
+\*           more) where the store locates the client
 ConnectedP(x) == last'[x] # "-" /\ cst'[last'[x]].st = "open" /\ alive'[last'[x]]
 AllClosedP(x) == \A c \in ConnSet : cst'[c].auth = x => cst'[c].st \in {"closed", "evicted"}
 Wanted(e, foundBefore) ==
@@ -123,12 +142,17 @@ Wanted(e, foundBefore) ==
     [] Only = "lost"  -> \/ e.a = "AuthLost" /\ ConnectedP(e.x)
                          \/ e.a \in {"HB", "Close", "Late"} /\ \E x \in Clients : lost'[x] /\ ConnectedP(x)
     [] Only = "close" -> e.a \in {"Close", "Late"} /\ e.w # "peer" /\ e.x # "-" /\ foundBefore /\ AllClosedP(e.x)
+    [] Only = "lookup" -> e.a = "HB" /\ e.x # "-" /\ lkDone'[e.x] /\ ConnectedP(e.x) /\ last'[e.x] = e.c
+    [] Only = "reauth" -> e.a = "Auth" /\ cst[e.c].auth = e.x
+                          /\ (last[e.x] # e.c \/ ~(clientIdx[e.x].ttl > 0 /\ clientIdx[e.x].conn = e.c))
     [] OTHER -> TRUE
-LogW(a, n, c, x, w, foundBefore) ==
+LogK(a, n, c, x, w, foundBefore, keepLk) ==
   LET e == [a |-> a, n |-> n, c |-> c, x |-> x, w |-> w] IN
+  /\ IF keepLk THEN UNCHANGED <<lk, lkDone, lkWrote>> ELSE TRUE
   /\ hist' = Append(hist, e)
   /\ shape' = shape /\ fixes' = fixes
   /\ IF Emit /\ Wanted(e, foundBefore) THEN PrintT("BEH " \o ToJson(hist')) ELSE TRUE
+LogW(a, n, c, x, w, foundBefore) == LogK(a, n, c, x, w, foundBefore, TRUE)
 Log(a, n, c, x) == LogW(a, n, c, x, "-", FALSE)
 
 \* ---- the store as the backend presents it -------------------------------------------------
@@ -188,8 +212,9 @@ AuthOK(n, c, x) ==
   /\ hb' = [hb EXCEPT ![c] = TRUE]
   /\ alive' = [alive EXCEPT ![c] = TRUE]
   /\ lost' = [lost EXCEPT ![x] = FALSE]
-  /\ UNCHANGED clock
-  /\ Log("Auth", n, c, x)
+  /\ lkDone' = [lkDone EXCEPT ![x] = FALSE]
+  /\ UNCHANGED <<clock, lk, lkWrote>>
+  /\ LogK("Auth", n, c, x, "-", FALSE, FALSE)
 
 \* credential check passed, response undeliverable: handleHandshake returns before its registry
 \* section, so the failing phase-2 round has no store effect.  Phase 1 of that round (challenge
@@ -240,6 +265,28 @@ FoundNow(c) == cst[c].auth # "-" /\ Find(cst[c].auth).r = "found"
 Close(n, c, w)       == ~Superseded(c) /\ CloseEffect(n, c, w) /\ LogW("Close", n, c, cst[c].auth, w, FoundNow(c))
 LateCleanup(n, c, w) == Superseded(c)  /\ CloseEffect(n, c, w) /\ LogW("Late", n, c, cst[c].auth, w, FoundNow(c))
 
+\* ---- FindClientNode as its two storage reads ------------------------------------------------
+LkBegin(m, x) ==
+  /\ Lookups /\ ~lk.p /\ KeyLive(clientIdx[x], clock)            \* an absent index ends the lookup at once
+  /\ lk' = [p |-> TRUE, m |-> m, x |-> x, conn |-> clientIdx[x].conn]
+  /\ UNCHANGED <<connRec, clientIdx, clock, cst, reg, last, hb, alive, dev, lost, lkDone, lkWrote>>
+  /\ LogK("LkBegin", m, "-", x, "-", FALSE, FALSE)
+
+LkEnd(m) ==
+  /\ lk.p /\ lk.m = m
+  /\ LET x == lk.x
+         gone == GetState(connRec, lk.conn, clock) = "notfound"
+         idxLive == KeyLive(clientIdx[x], clock)
+         overtaken == gone \/ ~idxLive \/ clientIdx[x].conn # lk.conn
+         erase == WritingLookup /\ gone /\ idxLive
+     IN /\ clientIdx' = IF erase THEN [clientIdx EXCEPT ![x] = NoIdx] ELSE clientIdx
+        /\ lkWrote' = (lkWrote \/ erase)
+        /\ dev' = IF erase /\ clientIdx[x].conn # lk.conn THEN [dev EXCEPT ![x] = @ \cup {"lookupErased"}] ELSE dev
+        /\ lkDone' = [lkDone EXCEPT ![x] = @ \/ overtaken]
+        /\ LogK("LkEnd", m, "-", x, "-", FALSE, FALSE)
+  /\ lk' = NoLk
+  /\ UNCHANGED <<connRec, clock, cst, reg, last, hb, alive, lost>>
+
 Tick ==
   /\ clock < MaxClock
   /\ clock' = clock + 1
@@ -256,6 +303,7 @@ Tick ==
   /\ Log("Tick", "-", "-", "-")
 
 Next == \/ Tick
+        \/ \E m \in Nodes : LkEnd(m) \/ \E x \in Clients : LkBegin(m, x)
         \/ \E n \in Nodes, c \in ConnSet :
              \/ Connect(n, c) \/ Heartbeat(n, c)
              \/ \E w \in Causes : Close(n, c, w) \/ LateCleanup(n, c, w)
@@ -273,6 +321,7 @@ FindLive      == \A x \in Clients : Connected(x) => Right(x)
 FindLiveOrDev == \A x \in Clients : Connected(x) => (Right(x) \/ dev[x] # {})
 FindClosed    == \A x \in Clients : (last[x] # "-" /\ AllClosed(x)) => Find(x).r # "found"
 NoDev         == \A x \in Clients : dev[x] = {}
+LookupPure    == ~lkWrote
 Repaired      == fixes = AllFixes => (FindLive /\ NoDev)
 
 \* the shared store is one store: every reachable record belongs to a connection that
@@ -281,5 +330,5 @@ IndexSound == \A x \in Clients : KeyLive(clientIdx[x], clock) => cst[clientIdx[x
 
 TypeOK == /\ clock \in 0..MaxClock
           /\ \A c \in ConnSet : cst[c].st \in {"new", "open", "evicted", "dead", "closed"}
-          /\ \A x \in Clients : last[x] \in ConnSet \cup {"-"} /\ dev[x] \subseteq {"shape", "lateCleanup", "ttlLapse", "phase1Moves"}
+          /\ \A x \in Clients : last[x] \in ConnSet \cup {"-"} /\ dev[x] \subseteq {"shape", "lateCleanup", "ttlLapse", "phase1Moves", "lookupErased"}
 =============================================================================
